@@ -83,11 +83,15 @@ def capacity(chk, MAX):
         ok = isinstance(t, Array) and t.length == MAX and not t.elems and t.default is not None and eval_value(entry_bits(t.default), {}) == 0 and eval_value(ln, {}) == 1
     chk.ob('empty', 'empty()%s: MAX null entries, one slot used' % tag, ok, 'paths %r' % (o,), fn_site(I, G + 'empty'))
 
-    # ---- push
+    # ---- push: a private helper (its effect is decided through `append` below); cross-checked while it has today's shape
     st, obj = gdt_state(I, MAX)
-    o = r1(G + 'push', [Ref(('arg', 'self')), BV.sym(64, 'v')], st)
-    rets = [x for x in o if x.kind == 'ret']
-    ok = len(rets) == (1 if MAX > 1 else 0) and all(x.kind == 'panic' for x in o if x not in rets)
+    pf = I.fn.get(G + 'push')
+    if pf is None or pf['argc'] != 2 or pf['locals'][2].get('k') != 'uint':
+        o = None
+    else:
+        o = r1(G + 'push', [Ref(('arg', 'self')), BV.sym(64, 'v')], st)
+    rets = [x for x in (o or []) if x.kind == 'ret']
+    ok = o is not None and len(rets) == (1 if MAX > 1 else 0) and all(x.kind == 'panic' for x in o if x not in rets)
     if rets:
         x = rets[0]
         fin = x.st.mem[('arg', 'self')]
@@ -95,7 +99,8 @@ def capacity(chk, MAX):
         slots = list(t.elems.values())
         ok = ok and len(slots) == 1 and is_aff(I, x.st, slots[0][0], L(x.st)) and same(entry_bits(slots[0][1]), BV.sym(64, 'v'))
         ok = ok and is_aff(I, x.st, ln, L(x.st, 1, 1)) and is_aff(I, x.st, x.val, L(x.st)) and x.st.rng.get('len') == [(1, MAX - 1)]
-    chk.ob('push', 'push%s writes slot[len], increments len, returns the old len; refuses a full table' % tag, ok, 'paths %r' % (o,), fn_site(I, G + 'push'))
+    if o is not None:
+        chk.ob('push', 'push%s writes slot[len], increments len, returns the old len; refuses a full table' % tag, ok, 'paths %r' % (o,), fn_site(I, G + 'push'))
 
     # ---- append
     for variant, nslots in (('UserSegment', 1), ('SystemSegment', 2)):
@@ -177,6 +182,26 @@ def capacity(chk, MAX):
     o = r1(fn_, [Ref(('arg', 'slice'))], st, keep=True)
     f = I.fn[fn_]
     byname = {v: int(k) for k, v in f['dbg'].items()}
+    # the loop counter and the table under construction are found by what they hold, not by their names: at the loop header the counter is
+    # the integer local that is 0, the table the local holding an array
+    for x in o:
+        if x.kind != 'loop':
+            continue
+        hd = [e for e in x.st.events if e[0] == 'loop-head' and e[1] == fn_]
+        if not hd:
+            continue
+        for li, v in hd[0][4].items():
+            if isinstance(v, BV) and v.is_const() and v.value() == 0 and v.w == 64:
+                byname.setdefault('idx?', [])
+                byname['idx?'].append(int(li))
+            if isinstance(v, Array) and not v.elems:
+                byname['table'] = int(li)
+        cands = byname.pop('idx?', [])
+        for li in cands:
+            after = x.st.mem.get(('L', x.frame, li))
+            if isinstance(after, BV) and not (after.is_const() and after.value() == 0):
+                byname['idx'] = li
+        break
     rets = [x for x in o if x.kind == 'ret']
     loops = [x for x in o if x.kind == 'loop']
     pans = [x for x in o if x.kind == 'panic']
